@@ -1,6 +1,10 @@
 #!/usr/bin/env python3
 """
-seedeval.py <ID> <k> <demo-path-in-repo> <demo-run-cmd...>
+seedeval.py <ID> <k> [confirm|detect|both]        (demo path and command are read from the demo's first line)
+
+  confirm: in the scratch worktree $SEED_REPO (default /tmp/seedconfirm): demo passes unchanged; with the
+           patch: go build ok, existing tests pass, demo FAILS
+  detect:  git -C /repo apply; ./check <P> quick for P in ID + $SEED_ALSO; git -C /repo checkout -- .
 
 Confirms a seeded change delivered by an independent sub-agent (/tmp/seedout_<ID>/patch<k>.diff +
 demo<k>_test.go.txt) against /repo and records it under /verif/seeded/<ID>-<k>/:
@@ -15,71 +19,93 @@ import json, os, shutil, subprocess, sys, time
 ENV = dict(os.environ, GOFLAGS="-mod=mod", GOPROXY="off", GOSUMDB="off", GOTOOLCHAIN="local")
 
 
-def sh(cmd, cwd="/repo", timeout=1800):
+REPO = "/repo"
+
+
+def sh(cmd, cwd=None, timeout=1800):
+    cwd = cwd or REPO
     p = subprocess.run(cmd, cwd=cwd, env=ENV, shell=isinstance(cmd, str), stdout=subprocess.PIPE,
                        stderr=subprocess.STDOUT, text=True, timeout=timeout, errors="replace")
     return p.returncode, p.stdout
 
 
 def main():
-    pid, k, demo_rel = sys.argv[1], sys.argv[2], sys.argv[3]
-    demo_cmd = " ".join(sys.argv[4:])
+    global REPO
+    pid, k = sys.argv[1], sys.argv[2]
+    mode = sys.argv[3] if len(sys.argv) > 3 else "both"
     src = "/tmp/seedout_%s" % pid
     patch = os.path.join(src, "patch%s.diff" % k)
     demo_src = os.path.join(src, "demo%s_test.go.txt" % k)
+    first = open(demo_src).readline().strip().lstrip("/ ").strip()
+    import re
+    m = re.match(r"(?i)place at:?\s*(\S+)\s*;\s*run:\s*(.*)$", first)
+    demo_rel, demo_cmd = m.group(1), m.group(2)
     out = "/verif/seeded/%s-%s" % (pid, k)
     os.makedirs(out, exist_ok=True)
-    demo_dst = os.path.join("/repo", demo_rel)
-    meta = {"property": pid, "variant": int(k), "patch": "patch.diff", "demo": os.path.basename(demo_rel),
-            "demo_path_in_repo": demo_rel, "demo_cmd": demo_cmd, "ran": []}
-    rc, st = sh("git status --porcelain")
-    if st.strip():
-        print("REPO NOT CLEAN:\n" + st); sys.exit(2)
-    try:
-        shutil.copyfile(demo_src, demo_dst)
-        rc0, o0 = sh(demo_cmd)
-        meta["ran"].append({"what": "demo on unchanged tree", "rc": rc0, "tail": o0[-600:]})
-        rc, o = sh(["git", "apply", patch])
-        if rc != 0:
-            meta["ran"].append({"what": "git apply", "rc": rc, "tail": o[-600:]})
-            raise SystemExit("patch does not apply: " + o)
-        rcb, ob = sh("go build ./...")
-        meta["ran"].append({"what": "go build ./...", "rc": rcb, "tail": ob[-400:]})
-        os.remove(demo_dst)
-        rct, ot = sh("go test -vet=off -count=1 ./pkg/... ./server/... ./client/... ./cmd/... 2>&1 | grep -v 'no test files'")
-        fails = [l for l in ot.splitlines() if l.startswith(("FAIL", "--- FAIL"))]
-        meta["ran"].append({"what": "existing tests with the change", "failed": fails, "tail": ot[-600:]})
-        shutil.copyfile(demo_src, demo_dst)
-        rc1, o1 = sh(demo_cmd)
-        meta["ran"].append({"what": "demo with the change", "rc": rc1, "tail": o1[-900:]})
-        os.remove(demo_dst)
-        meta["confirmed"] = bool(rc0 == 0 and rcb == 0 and not fails and rc1 != 0)
-        checks = [pid] + [c for c in os.environ.get("SEED_ALSO", "").split(",") if c]
-        meta["checks"] = {}
-        for c in checks:
-            t0 = time.time()
-            rcc, oc = sh(["./check", c, "quick"], cwd="/verif", timeout=3600)
-            lines = [l for l in oc.splitlines() if l.startswith(("VIOLATION", "KNOWN-FINDING")) or " quick:" in l]
-            meta["checks"][c] = {"rc": rcc, "detected": rcc == 1 and any(l.startswith("VIOLATION") for l in lines),
-                                 "lines": [l[:300] for l in lines], "wall_s": round(time.time() - t0, 1)}
-            rp = [l.split("replay=")[1].split()[0] for l in lines if l.startswith("VIOLATION") and "replay=" in l]
-            for r in rp:
-                try:
-                    shutil.copyfile(os.path.join("/verif", r), os.path.join(out, "replay-" + c + ".json"))
-                except OSError:
-                    pass
-    finally:
-        if os.path.exists(demo_dst):
+    mp = os.path.join(out, "meta.json")
+    meta = json.load(open(mp)) if os.path.exists(mp) else {}
+    meta.update({"property": pid, "variant": int(k), "patch": "patch.diff", "demo": os.path.basename(demo_rel),
+                 "demo_path_in_repo": demo_rel, "demo_cmd": demo_cmd})
+    meta.setdefault("ran", [])
+    if mode in ("confirm", "both"):
+        REPO = os.environ.get("SEED_REPO", "/tmp/seedconfirm")
+        demo_dst = os.path.join(REPO, demo_rel)
+        sh("git checkout -q --detach %s" % subprocess.run(["git", "-C", "/repo", "rev-parse", "HEAD"], capture_output=True, text=True).stdout.strip())
+        sh("git checkout -- . ; git clean -fdq")
+        meta["ran"] = []
+        try:
+            shutil.copyfile(demo_src, demo_dst)
+            rc0, o0 = sh(demo_cmd)
+            meta["ran"].append({"what": "demo on unchanged tree (scratch worktree)", "rc": rc0, "tail": o0[-500:]})
+            rc, o = sh(["git", "apply", patch])
+            meta["ran"].append({"what": "git apply patch", "rc": rc, "tail": o[-300:]})
+            rcb, ob = sh("go build ./...")
+            meta["ran"].append({"what": "go build ./...", "rc": rcb, "tail": ob[-300:]})
             os.remove(demo_dst)
-        sh("git checkout -- .")
-        sh("git clean -fd -- . ':!*.patch' >/dev/null")
+            rct, ot = sh("go test -vet=off -count=1 ./pkg/... ./server/... ./client/... ./cmd/... 2>&1 | grep -v 'no test files'")
+            fails = [l for l in ot.splitlines() if l.startswith(("FAIL", "--- FAIL"))]
+            meta["ran"].append({"what": "existing tests with the change", "failed": fails, "tail": ot[-500:]})
+            shutil.copyfile(demo_src, demo_dst)
+            rc1, o1 = sh(demo_cmd)
+            meta["ran"].append({"what": "demo with the change", "rc": rc1, "tail": o1[-900:]})
+            meta["confirmed"] = bool(rc0 == 0 and rc == 0 and rcb == 0 and not fails and rc1 != 0)
+        finally:
+            if os.path.exists(demo_dst):
+                os.remove(demo_dst)
+            sh("git checkout -- . ; git clean -fdq")
+    if mode in ("detect", "both"):
+        REPO = "/repo"
+        rc, st = sh("git status --porcelain")
+        if st.strip():
+            print("REPO NOT CLEAN:\n" + st); sys.exit(2)
+        try:
+            rc, o = sh(["git", "apply", patch])
+            if rc != 0:
+                raise SystemExit("patch does not apply to /repo: " + o)
+            checks = [pid] + [c for c in os.environ.get("SEED_ALSO", "").split(",") if c]
+            meta.setdefault("checks", {})
+            for c in checks:
+                t0 = time.time()
+                rcc, oc = sh(["./check", c, os.environ.get("SEED_TIER", "quick")], cwd="/verif", timeout=7200)
+                lines = [l for l in oc.splitlines() if l.startswith(("VIOLATION", "KNOWN-FINDING")) or " quick:" in l or " thorough:" in l]
+                meta["checks"][c + ":" + os.environ.get("SEED_TIER", "quick")] = {
+                    "rc": rcc, "detected": rcc == 1 and any(l.startswith("VIOLATION") for l in lines),
+                    "lines": [l[:300] for l in lines], "wall_s": round(time.time() - t0, 1)}
+                for r in [l.split("replay=")[1].split()[0] for l in lines if l.startswith("VIOLATION") and "replay=" in l]:
+                    try:
+                        shutil.copyfile(os.path.join("/verif", r), os.path.join(out, "replay-" + c + ".json"))
+                    except OSError:
+                        pass
+        finally:
+            sh("git checkout -- .")
     shutil.copyfile(patch, os.path.join(out, "patch.diff"))
     shutil.copyfile(demo_src, os.path.join(out, os.path.basename(demo_rel)))
     notes = os.path.join(src, "NOTES.md")
     if os.path.exists(notes):
         shutil.copyfile(notes, os.path.join(out, "NOTES-from-author.md"))
-    json.dump(meta, open(os.path.join(out, "meta.json"), "w"), indent=1)
-    print(json.dumps({"confirmed": meta.get("confirmed"), "checks": {c: v["detected"] for c, v in meta.get("checks", {}).items()}}))
+    json.dump(meta, open(mp, "w"), indent=1)
+    print(pid, k, json.dumps({"confirmed": meta.get("confirmed"),
+                              "checks": {c: v["detected"] for c, v in meta.get("checks", {}).items()}}))
 
 
 if __name__ == "__main__":
